@@ -23,7 +23,7 @@ RULE = ("NP2.4 recordings whose first rows contain all 65536 int16 values (or al
         "(gain, assignment mode, #shanks, window, ns, options)")
 ASSUMPTIONS = ["byte comparison uses harness code (numpy.fromfile / mtscomp), never the repository's reader",
                "metadata equality is judged on the parsed dictionaries (tilde prefixes are not part of a key)"]
-REQUIRED = {"shank_files_compared": 8, "reconstructions": 3, "meta_fields_compared": 100, "values_all_int16": 1, "second_passes": 4, "shank_files_opened": 8, "limited_precision_durations": 5, "compressed_originals": 3}
+REQUIRED = {"shank_files_compared": 8, "reconstructions": 3, "meta_fields_compared": 100, "values_all_int16": 1, "second_passes": 4, "shank_files_opened": 8, "limited_precision_durations": 5, "compressed_originals": 3, "resplits": 4}
 CASE_TIMEOUT = 120.0
 MAX_PROCS = 12
 
@@ -193,6 +193,21 @@ def run_case(case):
                 if t0[k] != t1[k] and not _same_numbers(t0[k], t1[k]):
                     res.violation("reconstruct:meta-field:text", f"{label}: meta field {k!r}: original text {t0[k]!r}, reconstructed text {t1[k]!r}")
             res.count("meta_text_compared")
+            # the reassembled recording IS the original again (apart from its provenance flag): splitting it once more gives the same shank files
+            if same and rng.random() < 0.4:
+                for s2 in cols:
+                    shutil.rmtree(d / f"probe00{chr(97 + s2)}", ignore_errors=True)
+                conv2 = neuropixel.NP2Converter(out, post_check=bool(rng.integers(0, 2)), compress=False, delete_original=False)
+                if window is not None:
+                    conv2.init_params(nwindow=window)
+                st2 = conv2.process()
+                conv2.sr.close()
+                res.check(st2 == 1, "resplit:status", f"{label}: splitting the reassembled recording returned {st2} (expected 1: it is an unsplit multi-shank recording again)",
+                          counter="resplits")
+                for s2, c2 in cols.items():
+                    f2 = d / f"probe00{chr(97 + s2)}" / (np2.NAME + ".bin")
+                    okf = f2.exists() and np.array_equal(np2.read_int16(f2, len(c2)), raw[:, c2])
+                    res.check(okf, "resplit:values", f"{label}: shank {s2} file of the second split is missing or differs from the original's columns")
     except AssertionError as e:
         res.violation("reconstruct:assertion", f"{label}: reconstructor raised AssertionError {e}")
     except Exception as e:
